@@ -266,6 +266,64 @@ theorem growAll_inv (ops : List (BitVec 32 × Bool × Bool × Bool)) (m m' : Mem
     · rename_i r hg
       exact ih r.1 (grow_inv m h δ a n mv r hg) hr
 
+/-- Memory never shrinks and its declared limits never change: after any grow request (successful,
+refused, or of zero pages) the byte length is at least what it was, and `min`, `max` and the shared flag are
+what they were. -/
+theorem grow_never_shrinks (m : Mem) (h : Inv m) (δ : BitVec 32) (a n mv : Bool)
+    (r : Mem × BitVec 32 × Bool) (hr : grow m δ a n mv = some r) :
+    m.len.toNat ≤ r.1.len.toNat ∧ r.1.min = m.min ∧ r.1.max = m.max ∧ r.1.shared = m.shared := by
+  have hinv := grow_inv m h δ a n mv r hr
+  obtain ⟨p, hp, hlen⟩ := h.whole
+  have hpg := pages_eq m.len p hp hlen
+  unfold grow at hr
+  split at hr
+  · simp at hr
+  · simp at hr; subst hr; exact ⟨Nat.le_refl _, rfl, rfl, rfl⟩
+  · rename_i r0 hg
+    split at hr
+    · simp at hr; subst hr; exact ⟨Nat.le_refl _, rfl, rfl, rfl⟩
+    · rename_i hd
+      simp at hr; subst hr
+      refine ⟨?_, rfl, rfl, rfl⟩
+      have hd' : δ ≠ 0#32 := by simpa using hd
+      have key := guard_iff δ m.max m.len p hpg hp h.maxle
+      rw [Grow_eq] at hg
+      have hd'' : (δ == 0#32) = false := by simpa using hd'
+      rw [hd''] at hg
+      have hk : p + δ.toNat ≤ m.max.toNat := by
+        by_cases hk : p + δ.toNat ≤ m.max.toNat
+        · exact hk
+        · rw [key.mpr hk] at hg; simp at hg
+      have hnew : (m.pages + δ).toNat = p + δ.toNat := by
+        simp only [Mem.pages, BitVec.toNat_add, hpg]
+        have := h.maxle
+        omega
+      have hb := bytes_toNat (m.pages + δ)
+      simp only [hb, hnew, hlen]
+      exact Nat.mul_le_mul_right _ (Nat.le_add_right _ _)
+
+/-- Lifted to all histories: along any sequence of grow requests the length is non-decreasing and the limits
+are fixed, so the final size lies between the initial size and `max` (with `growAll_inv`). -/
+theorem growAll_never_shrinks (ops : List (BitVec 32 × Bool × Bool × Bool)) (m m' : Mem) (h : Inv m)
+    (hr : growAll m ops = some m') :
+    m.len.toNat ≤ m'.len.toNat ∧ m'.min = m.min ∧ m'.max = m.max ∧ m'.shared = m.shared := by
+  induction ops generalizing m with
+  | nil => simp [growAll] at hr; subst hr; exact ⟨Nat.le_refl _, rfl, rfl, rfl⟩
+  | cons op rest ih =>
+    obtain ⟨δ, a, n, mv⟩ := op
+    simp only [growAll] at hr
+    split at hr
+    · simp at hr
+    · rename_i r hg
+      have h1 := grow_never_shrinks m h δ a n mv r hg
+      have h2 := ih r.1 (grow_inv m h δ a n mv r hg) hr
+      exact ⟨Nat.le_trans h1.1 h2.1, h2.2.1.trans h1.2.1, h2.2.2.1.trans h1.2.2.1, h2.2.2.2.trans h1.2.2.2⟩
+
+-- non-vacuity (test on a sample): (memory 1 3): grow by 1 succeeds, grow by 5 is refused; the run ends at 2 pages
+example : ∃ m', growAll (newMem 1#32 1#32 3#32 false) [(1#32, false, false, false), (5#32, false, false, false)] = some m' ∧
+    m'.len = 131072#64 := by
+  refine ⟨_, rfl, ?_⟩; rfl
+
 /-- A fresh memory satisfies the invariant whenever decoding accepted its limits (limit ≤ 65536). -/
 theorem newMem_inv (min cap max : BitVec 32) (sh : Bool) (hmm : min.toNat ≤ max.toNat)
     (hmax : max.toNat ≤ 65536) : Inv (newMem min cap max sh) := by
